@@ -21,13 +21,14 @@ ASSUMPTIONS = ["empty field values are outside the alphabet", "reference renderi
 
 
 def gen(ref, tier, extra_names):
-    big = tier == "thorough"
+    big = tier in ("thorough", "quick")     # the full-size universe costs 3 s: it is the quick tier too
+    huge = tier == "thorough"
     saved = list(universe.NAMES)
     try:
         universe.NAMES[:] = saved + extra_names
         for typ in ref.types:
             small = tier == "c20"
-            vs = universe.value_sets(ref, typ, n_closed=4 if big else (2 if small else 3), n_digit=3 if big else (1 if small else 2),
+            vs = universe.value_sets(ref, typ, n_closed=(6 if huge else 4) if big else (2 if small else 3), n_digit=(4 if huge else 3) if big else (1 if small else 2),
                                      n_names=len(universe.NAMES) if big else (2 if small else 4),
                                      search=False, aliases=False)
             # open placeholders: always include the separator name and the folder-like name
